@@ -310,18 +310,31 @@ class Ctx(object):
         # a fresh (non-incremental) solver per validity query: z3's
         # incremental mode uses a weaker configuration and was measured
         # 100x slower on the div/mod-heavy date arithmetic
-        fs = z3.Solver()
-        fs.set('timeout', self.query_timeout_ms)
-        fs.set('random_seed', self.seed)
-        for a in self.solver.assertions():
-            fs.add(a)
-        fs.add(z3.Not(prop))
-        t0 = time.time()
-        r = str(fs.check())
-        self.solver_s += time.time() - t0
-        self.queries += 1
-        if r == 'sat':
-            return 'sat', self.model_inputs(fs.model())
+        # restarts: solving times of the non-linear queries (std/var, date
+        # arithmetic) are heavy-tailed in the random seed, so short attempts
+        # with different seeds come before the long one
+        total = self.query_timeout_ms
+        plan = [(min(3000, total), self.seed),
+                (min(12000, total), self.seed + 101),
+                (total, self.seed + 202)]
+        r = 'unknown'
+        for tmo, seed in plan:
+            fs = z3.Solver()
+            fs.set('timeout', int(tmo))
+            fs.set('random_seed', int(seed))
+            for a in self.solver.assertions():
+                fs.add(a)
+            fs.add(z3.Not(prop))
+            t0 = time.time()
+            r = str(fs.check())
+            self.solver_s += time.time() - t0
+            self.queries += 1
+            if r == 'sat':
+                return 'sat', self.model_inputs(fs.model())
+            if r == 'unsat':
+                return r, None
+            if tmo >= total:
+                break
         return r, None
 
 
